@@ -115,6 +115,29 @@ def build_job(spec, funcs=None):
 
 
 # ----------------------------------------------------------------------------- the fake cluster
+def wrap_val(v, nd):
+    """nd: hand the value over as a numpy object array (requested outputs are numpy/xarray data in real use:
+    `x == None` is then elementwise and has no truth value) -- norm_value() undoes it for comparisons"""
+    if not nd:
+        return v
+    import numpy as np
+    a = np.empty(len(v), dtype=object)
+    for i, x in enumerate(v):
+        a[i] = x
+    return a
+
+
+def norm_value(v):
+    import numpy as np
+    if isinstance(v, np.ndarray):
+        return tuple(norm_value(x) for x in v.tolist())
+    if isinstance(v, (tuple, list)):
+        return tuple(norm_value(x) for x in v)
+    if isinstance(v, dict):
+        return tuple(sorted((k, norm_value(x)) for k, x in v.items()))
+    return v
+
+
 class FakeCluster:
     """Duck-typed Bridge.  Cluster semantics = coq/theories/Sched/Model.v (store, wq, xfers,
     fetches, purges, pool).  mode: 'fifo' (events in generation order), 'batchy' (same, large
@@ -154,6 +177,7 @@ class FakeCluster:
         self.none_ds = {(k, o) for k, t in enumerate(spec["tasks"]) for o in t.get("none", [])}
         self.steps = 0
         self.progress = {}
+        self.salt = 0
 
     # --- id mapping
     def ds_id(self, ds):
@@ -336,7 +360,7 @@ class FakeCluster:
                 self.problem("fetch-source-lost-dataset", f"fetch {d} from {src} found nothing")
                 raise Deadlock("fetch failure")
             import cloudpickle
-            val = self.values.get((src, self.key[d])) if self.executor else (None if got in self.none_ds else ("VAL", got))
+            val = self.values.get((src, self.key[d])) if self.executor else (None if got in self.none_ds else wrap_val(("VAL", got), (got[0] + got[1] + self.salt) % 2 == 0))
             hdr = DatasetTransmitPayloadHeader(confirm_address="x", confirm_idx=0, ds=self.ds_obj(d), deser_fun="cloudpickle.loads")
             self.pool.append(DatasetTransmitPayload(header=hdr, value=cloudpickle.dumps(val)))
             env.append(("fetch", x))
@@ -398,6 +422,7 @@ def run_case(spec, seed, mode, executor=None, funcs=None):
     rng = random.Random(seed)
     job, env, wids = build_job(spec, funcs)
     cluster = FakeCluster(spec, job, env, wids, rng, mode, executor)
+    cluster.salt = seed
     outcome, detail, state = "ok", "", None
     old = signal.signal(signal.SIGALRM, _alarm)
     signal.setitimer(signal.ITIMER_REAL, 5.0)
@@ -416,7 +441,7 @@ def run_case(spec, seed, mode, executor=None, funcs=None):
     cluster.end_of_run()
     outs = None
     if state is not None:
-        outs = {cluster.ds_id(k): v for k, v in state.outputs.items()}
+        outs = {cluster.ds_id(k): norm_value(v) for k, v in state.outputs.items()}
     return {"spec": spec, "seed": seed, "mode": mode, "rounds": cluster.rounds, "outcome": outcome, "detail": detail,
             "problems": cluster.problems, "outputs": outs, "cluster": cluster}
 
